@@ -259,8 +259,18 @@ def gen_alias_case(rng):
                 streams.append({'pkg': k, 'multi': False, 'phases': [rng.choice(missing)],
                                 'flows': [[float(rng.choice(VALS[1:])) if rng.random() < 0.7 else 0. for _ in PKGS[k]]]})
                 newphase[j] = len(streams) - 1
+    twin = {}                    # for a multi-phase stream: another one with the same phases and package
+    for j in range(len(streams)):
+        if streams[j]['multi'] and rng.random() < 0.6:
+            k = streams[j]['pkg']
+            streams.append({'pkg': k, 'multi': True, 'phases': list(streams[j]['phases']),
+                            'flows': [[float(rng.choice(VALS)) if rng.random() < 0.6 else 0. for _ in PKGS[k]] for _ in streams[j]['phases']]})
+            twin[j] = len(streams) - 1
     ns = len(streams)
     handles = []
+    for j in twin:               # sub-streams of a receiver that will take over another stream's rows (copy_like)
+        if rng.random() < 0.8:
+            handles.append(['view', j, rng.choice(streams[j]['phases'])])
     for j in newphase:           # the sub-streams are handed out before the phases are expanded
         handles.append(['view', j, rng.choice(streams[j]['phases'])])
     for _ in range(rng.choice([1, 2, 2, 3])):
@@ -284,7 +294,7 @@ def gen_alias_case(rng):
         streams_extra.pop('order', None)
     ops = []
     for _ in range(rng.choice([2, 3, 3, 4])):
-        kind = rng.choice(['mix_alias1', 'mix_alias1', 'mix_aliasn', 'mix_new_phase', 'mix_new_phase', 'mix_from_view', 'mix_rebind', 'split', 'split_multi',
+        kind = rng.choice(['mix_alias1', 'mix_alias1', 'mix_aliasn', 'mix_new_phase', 'mix_new_phase', 'mix_from_view', 'mix_rebind', 'mix_twin', 'mix_twin', 'split', 'split_multi',
                            'sep', 'scale', 'copy_flow', 'mul'])
         r = rng.choice(nonviews)
         same = [k for k in range(nh) if k != r and cell[k] == cell[r]]
@@ -303,6 +313,12 @@ def gen_alias_case(rng):
             if r in newphase:
                 ins.insert(rng.randrange(len(ins) + 1), newphase[r])
             ops.append(['mix', r, ins, rng.random() < 0.3, 0])
+        elif kind == 'mix_twin':
+            # one non-empty multi-phase inlet with the receiver's phases and package: MultiStream.copy_like
+            if twin:
+                r = rng.choice(list(twin))
+                a, b = (r, twin[r]) if rng.random() < 0.7 else (twin[r], r)
+                ops.append(['mix', a, [b], rng.random() < 0.85, 0])
         elif kind == 'mix_rebind':
             # operations that replace the receiver's indexer while other stream objects share its data
             shared = [k for k in nonviews if [cell[x] for x in range(nh)].count(cell[k]) > 1] or nonviews
@@ -333,7 +349,10 @@ def gen_alias_case(rng):
             ops.append(['copy_flow', r, s, ids, rng.random() < 0.6, False, None])
         else:
             ops.append(['mul', rng.randrange(nh), float(rng.choice(KS))])
-    return {'streams': streams, 'handles': handles, 'ops': ops}
+    case = {'streams': streams, 'handles': handles, 'ops': ops}
+    if rng.random() < 0.6:
+        case['mass_views'] = True
+    return case
 
 def gen_case(rng):
     u = rng.random()
@@ -458,6 +477,8 @@ def build_store(case):
         else:
             x = store[h[1]][h[2]]
         store.append(x)
+    if case.get('mass_views'):       # the cached mass-flow views (indexer._data_cache) wrap the same row objects
+        for x in store: x.imass
     return store
 
 def handle_cells(case):
@@ -649,6 +670,21 @@ def shares(a, b):
     """two stream objects on (partly) the same flow data: flow_proxy / link_with / multistream[phase]"""
     return a is b or bool(dicts_of(a) & dicts_of(b))
 
+def mass_consistency(case, store, name):
+    """the mass-flow view of every stream keeps showing MW * molar flow of the same stream (MW = 16 for every stub chemical)"""
+    if not case.get('mass_views'):
+        return None
+    for k, x in enumerate(store):
+        try:
+            mass = np.asarray(x.imass.data.to_array(), float)
+            mol = np.asarray(x.imol.data.to_array(), float)
+        except Exception:
+            continue
+        if mass.shape != mol.shape or not np.allclose(mass, 16. * mol, rtol=1e-9, atol=0):
+            return (f'alias:mass-view: after {name} the mass flows of stream {k} show {mass.tolist()} but its molar flows are '
+                    f'{mol.tolist()} (MW = 16)')
+    return None
+
 def alias_consistency(case, store, name, detached=()):
     """every other stream object on the same flow data keeps showing that data (unless one of the two had its
     indexer replaced by a phases setter, which ends the sharing by construction)"""
@@ -802,7 +838,7 @@ def oracle(case):
             return None
         for k, x in enumerate(store[:len(imols0)]):
             if x._imol is not imols0[k]: detached.add(k)
-        msg = alias_consistency(case, store, name, detached)
+        msg = alias_consistency(case, store, name, detached) or mass_consistency(case, store, name)
         if msg: return msg
     return None
 
@@ -834,7 +870,13 @@ def copy_flow_moves(store, op):
         if not close(got[n] + after[n], before[n]):
             phase = op[6] if len(op) > 6 else None
             multi_recv = kind_of(store[d]) == 'M'
-            sel = 'all' if phase is None or not multi_recv else ('match' if phase.lower() in [p.lower() for p in info_s[0]] else 'mismatch')
+            sel = 'all'
+            if phase is not None and multi_recv:
+                try:
+                    gi = store[d].imol.get_phase_index
+                    sel = 'match' if kind_of(store[s]) == 'M' or gi(phase) == gi(store[s].phase) else 'mismatch'
+                except Exception:
+                    sel = 'mismatch'
             detail = f'chemical {n}: source had {before[n]}, keeps {after[n]}, receiver got {got[n]}'
             # classes already present in the unchanged tree get a stable key each
             if multi_recv and exclude and ids is None:
@@ -901,6 +943,10 @@ CORPUS = [
     # aliases: the receiver's flow proxy is the only non-empty inlet of an energy-balanced mix (copy_like on shared data)
     {'streams': [_s(1, 'l', [1., 2., 0]), _s(1, 'g', [0, 0, 0])], 'handles': [['proxy', 0, 'g']],
      'ops': [['mix', 0, [2, 1], True, 0], ['mix', 2, [0], True, 0], ['mix', 0, [2, 1, 0], False, 0]]},
+    # aliases: sub-streams and mass views of a MultiStream that takes over another MultiStream's rows (one inlet, copy_like)
+    {'streams': [_m(1, ['g', 'l'], [[4., 0, 1.], [0, 0, 2.]]), _m(1, ['g', 'l'], [[1., 2., 0], [0, 0, 8.]]), _s(1, 'l', [0, 0, 0]), _s(1, 'g', [0, 0, 0])],
+     'handles': [['view', 0, 'l'], ['view', 0, 'g']], 'mass_views': True,
+     'ops': [['mix', 0, [1, 2], True, 0], ['split', 0, 2, 3, 0.5, True]]},
     # aliases: sub-streams handed out before a mix that expands the phases must keep showing the MultiStream's rows
     {'streams': [_m(1, ['g', 'l'], [[1., 0, 0], [0, 2., 4.]]), _s(1, 's', [0, 1., 1.]), _s(1, 'l', [8., 0, 0]), _s(1, 'l', [0, 0, 0]), _s(1, 'g', [0, 0, 0])],
      'handles': [['view', 0, 'l'], ['view', 0, 'g']],
